@@ -105,7 +105,7 @@ pub fn replay(case: &Value) -> Result<String, String> {
 pub fn plan(tier: Tier) -> Plan {
     let mut p = Plan::new("C09", "model_checking");
     let thorough = tier.thorough();
-    p.rule = "every byte string produced by the builder over the C01 space (all subsets of U_ab3/U_abc2/U_raw2 x value patterns x cache geometries; all 23 front ends (17 entry points + 6 usage variants: builders kept in use after rejected calls, several bulk calls on a populated builder) under the default geometry for small sets; fan-out families 0..256; a label family in which each of the 256 bytes labels single-transition nodes of both forms; type field in {0,1,255,u64::MAX}; size families 3000 / 70000 (thorough: 1200000) keys for 2-,3-,4-byte deltas) is decoded by an independent decoder written from the format description: header/footer fields, reference CRC, backwards tiling of the body without gap or overlap, every target 0 or an earlier tiled node, strictly increasing inputs, index table consistent, depth-first reading == model. Field-width minimality and the choice among legal node forms are not asserted. non-trivial = files with >= 2 keys".into();
+    p.rule = "every byte string produced by the builder over the C01 space (all subsets of U_ab3/U_abc2/U_raw2 x value patterns x cache geometries; all 26 front ends (17 entry points + 6 usage variants: builders kept in use after rejected calls, several bulk calls on a populated builder + the 3 memory() constructors with into_fst/into_map/into_set) under the default geometry for small sets; fan-out families 0..256; a label family in which each of the 256 bytes labels single-transition nodes of both forms; type field in {0,1,255,u64::MAX}; size families 3000 / 70000 (thorough: 1200000) keys for 2-,3-,4-byte deltas) is decoded by an independent decoder written from the format description: header/footer fields, reference CRC, backwards tiling of the body without gap or overlap, every target 0 or an earlier tiled node, strictly increasing inputs, index table consistent, depth-first reading == model. Field-width minimality and the choice among legal node forms are not asserted. non-trivial = files with >= 2 keys".into();
     p.assumptions = vec!["the format description in DESIGN.md section C09 is the documented format; the decoder shares no code or table with the crate (its common-input table is a frozen literal)".into()];
     let small_geoms: Vec<Geom> = if thorough { GEOMS.iter().cloned().filter(|g| *g != DEFAULT_GEOM).collect() } else { vec![(1, 1), (2, 2), (0, 0)] };
     for u in [u_ab3(), u_abc2(), u_raw2()] {
